@@ -155,7 +155,7 @@ ADD = {
                 note=' The Welch object of the theorems is written out in numpy and compared with what welchSpectrum returns (1e-9) on every tested series.'),
     'C20': dict(technique=' + an EXECUTABLE model of gramSchmidOrth (coincidence test, column re-arrangement, the two loops; Model/Gram.lean) proved to be the abstract two-loop Gram-Schmidt in Euclidean space and compared with the implementation column by column',
                 text=' C20m_mgs_toE / C20m_orthonormal / C20m_first: the executable loops are the abstract loops under the embedding into EuclideanSpace; on linearly independent columns the output columns satisfy dot B_i B_j = delta_ij and the first is the normalised first column handed to the loops.',
-                note=' The executable model is compared with gramSchmidOrth at 1e-9 on integer matrices (default alignment, generic vector, exact positive / negative multiples of a column, vectors near a column). C20d_derivative_exact: the executable model of derivative() with ANY regenerated weight table returns the exact n-th derivative of every polynomial of degree below the stencil size (tables -> real moment conditions -> polynomial exactness, end to end); compared with utils.derivative on polynomials at decimal and dyadic steps.'),
+                note=' The executable model is compared with gramSchmidOrth at 1e-9 on integer matrices (default alignment, generic vector, exact positive / negative multiples of a column, vectors near a column). C20d_derivative_exact: the executable model of derivative() with ANY regenerated weight table returns the exact n-th derivative of every polynomial of degree below the stencil size (tables -> real moment conditions -> polynomial exactness, end to end); compared with utils.derivative on polynomials at decimal and dyadic steps; C20d_partial_exact the same for gradient along a coordinate; the gradient / hessianMatrix models (stencil along one coordinate, gradient of the gradient) are compared with the implementation on quadratics at stencil sizes 3-9.'),
 }
 
 
